@@ -239,8 +239,10 @@ def rule_subprocess(ck: Check, repo: Repo, cg: CallGraph) -> None:
             for st in ast.walk(fn):
                 if isinstance(st, ast.Assign) and any(ast.unparse(t) == "command" for t in st.targets) and isinstance(st.value, ast.List):
                     cmd = st.value
-            argv = [ast.unparse(e) if not isinstance(e, ast.Constant) else e.value for e in cmd.elts] if cmd else None
             inline = c.args[0] if c.args and isinstance(c.args[0], ast.List) else None
+            if cmd is None and inline is not None and not any(isinstance(e, ast.Starred) for e in inline.elts):
+                cmd = inline          # the literal argv written directly in the call
+            argv = [ast.unparse(e) if not isinstance(e, ast.Constant) else e.value for e in cmd.elts] if cmd else None
             # a shared runner `execute_command([str(cls.EXE), *args], …)` with `args` a parameter: the argv of every CALL of that
             # runner (literal lists at the call sites) is what is judged
             variants = []
@@ -282,8 +284,8 @@ def rule_subprocess(ck: Check, repo: Repo, cg: CallGraph) -> None:
                 for qy in READ_ONLY_QUERIES.get(cls, []):
                     if rest[: len(qy)] == qy:
                         ok = True
-            if not variants and ast.unparse(c.args[0]) != "command":
-                ok = False
+            if not variants and ast.unparse(c.args[0]) != "command" and c.args[0] is not cmd:
+                ok = False        # what is executed must be the list that was judged (the `command` local, or the literal itself)
             if not ok:
                 r.violation(f, "VCS command is not a whitelisted read-only query", f"argv {argv}", repo.loc(c))
     r.floor(10, "execute_command call sites", got=n)
@@ -326,7 +328,19 @@ def rule_provenance(ck: Check, repo: Repo) -> None:
     # set(paths) / paths and nothing else
     nonrec = [s_ for ok, s_ in shapes if ok and s_ in ("set(paths)", "paths", "list(paths)")]
     s2 = re.sub(r"\s+", " ", ast.unparse(ap))
-    if not nonrec and "else: result = set(paths)" not in s2 and "result = set(paths)" not in s2:
+    # ... under whatever name: the set the returned comprehension ranges over is bound to set(paths) on some branch
+    iter_names = set()
+    for n in rets:
+        v = n.value
+        if isinstance(v, ast.Name):
+            vals = [st.value for st in ast.walk(ap) if isinstance(st, ast.Assign) and any(isinstance(t, ast.Name) and t.id == v.id for t in st.targets)]
+            v = vals[-1] if len(vals) == 1 else v
+        if isinstance(v, ast.ListComp) and v.generators and isinstance(v.generators[0].iter, ast.Name):
+            iter_names.add(v.generators[0].iter.id)
+    bound_to_named = any(isinstance(st, ast.Assign) and len(st.targets) == 1 and isinstance(st.targets[0], ast.Name)
+                         and st.targets[0].id in iter_names and ast.unparse(st.value) in ("set(paths)", "paths", "list(paths)")
+                         for st in ast.walk(ap))
+    if not nonrec and not bound_to_named and "else: result = set(paths)" not in s2 and "result = set(paths)" not in s2:
         r.violation("reuse.cli.annotate.all_paths", "non-recursive mode", "must be exactly the named paths", repo.loc(ap))
     # loop body: the file handed to add_header_to_file is the loop's path or its .license sibling, nothing else (whatever the
     # local that carries it is called)
